@@ -70,9 +70,31 @@ func checkExpansionSchemas(c *Ctx, ev *evaluator) {
 		origins := ev.varOrigins(cs)
 		// gen := table.GetX(s)
 		var gen, operand types.Object
+		transformedBy := ""
+		var transformedAt token.Pos
 		for _, st := range cs.clause.Body {
 			as, ok := st.(*ast.AssignStmt)
-			if !ok || len(as.Lhs) != 1 || len(as.Rhs) != 1 {
+			if !ok || len(as.Rhs) != 1 || len(as.Lhs) < 1 {
+				continue
+			}
+			// s, _ := f(rhs[1].Val.(Strings)): the operand goes through a function before the operator sees it
+			if call, isCall := ast.Unparen(as.Rhs[0]).(*ast.CallExpr); isCall {
+				if tv, has := info.Types[call.Fun]; !(has && tv.IsType()) {
+					for _, a := range call.Args {
+						if k, ok := ev.rhsVal(stripAssert(a)); ok && k == 1 {
+							// a function from the operand's type to the same type is a transformation of the operand (a helper
+							// that only asserts takes `any`)
+							at, lt := info.TypeOf(a), info.TypeOf(as.Lhs[0])
+							if at != nil && lt != nil && types.Identical(at, lt) {
+								if _, isIface := at.Underlying().(*types.Interface); !isIface {
+									transformedBy, transformedAt = types.ExprString(call.Fun), as.Pos()
+								}
+							}
+						}
+					}
+				}
+			}
+			if len(as.Lhs) != 1 {
 				continue
 			}
 			lid, ok := as.Lhs[0].(*ast.Ident)
@@ -89,6 +111,12 @@ func checkExpansionSchemas(c *Ctx, ev *evaluator) {
 					}
 				}
 			}
+		}
+		if transformedBy != "" && operand == nil {
+			c.Fail("R1.3", key+": the operator is applied to the operand as it was written", transformedAt,
+				"the operand goes through "+transformedBy+"(…) before the operator's productions are built: what is repeated (or made optional, or grouped) is then not the sub-expression between the brackets",
+				"start = {{ {\"x\"} }};  (an operator directly inside another one)")
+			continue
 		}
 		if gen == nil || operand == nil {
 			// the action does not have the shape `s := rhs[1].Val…; gen := table.GetX(s); …AddProduction…` (it may hand the work to a
